@@ -158,6 +158,12 @@ func (c *CRLRevocationChecker) initCRLUpdateTicker() {
 
 }
 func (c *CRLRevocationChecker) updateCRLs(forceUpdate bool) {
+	//updates also run in their own goroutines, a panic while handling a fetched CRL must not end the process
+	defer func() {
+		if err := recover(); err != nil {
+			log.Printf("[PANIC] crl update: %v\n%s", err, debug.Stack())
+		}
+	}()
 	crlUpdateMutex.Lock()
 	defer crlUpdateMutex.Unlock()
 
